@@ -9,11 +9,12 @@
    object that is not live (outcome Dangling of [step]).  [listed u p] = p is in u's input or output
    port list. *)
 From OlaBase Require Import Bytes.
-From C03 Require Import Gen Model Lemmas Proofs Proofs2 Model2 Proofs3 Proofs4 Model3 Proofs5.
+From C03 Require Import Gen Model Lemmas Proofs Proofs2 Model2 Proofs3 Proofs4 Model3 Proofs5 Proofs6.
 Local Open Scope N_scope.
 
 (* the constants regenerated from include/ola/dmx/SourcePriorities.h are the property's numbers *)
-Theorem c03_consts : (SOURCE_PRIORITY_MAX, SOURCE_PRIORITY_DEFAULT, PRIORITY_MODE_INHERIT, PRIORITY_MODE_STATIC) = (200, 100, 0, 1).
+Theorem c03_consts : (SOURCE_PRIORITY_MAX, SOURCE_PRIORITY_DEFAULT, PRIORITY_MODE_INHERIT, PRIORITY_MODE_STATIC,
+                      U8_LIMIT, UINT_LIMIT) = (200, 100, 0, 1, 256, 4294967296).
 Proof. reflexivity. Qed.
 Print Assumptions c03_consts.
 
@@ -343,3 +344,111 @@ Example ex_stale_client :
   | None => False
   end.
 Proof. vm_compute. split; reflexivity. Qed.
+
+(* ====================================================================================================
+   Extension round.  [yop] is the complete operation set: the operations of rounds 1-2 (YX), DMX frames,
+   housekeeping runs and Port::SetPriority called on the port itself (YPortSetPrio).
+   [hk_count ops] = number of housekeeping runs in ops; [no_removal n cl ops] = ops contains no explicit
+   RemoveSourceClient of client cl on universe n. *)
+
+(* The full invariant (all clauses of c03_inv incl. list direction, NoDup and deleted ports, plus
+   broker = patched) over every history of the complete operation set, for every veto function and
+   every preloaded preference set.  Priorities <= 200 therefore holds for every entry point:
+   SetPriorityStatic/Inherit, RestorePortPriority from arbitrary preferences, Port::SetPriority. *)
+Theorem c03y_inv_full : forall (xc : xcfg) (ops : list yop),
+  exists y s, yrun xc (yinit xc) ops = Some y /\ s = x_s (y_x y) /\
+  (forall o u p, s_heap s o = Live u -> (listed u p <-> s_puniv s p = Some o)) /\
+  (forall o u p, s_heap s o = Live u -> In p (u_in u) ->
+      exists pc, port_cfg (xc_cfg xc) p = Some pc /\ pc_in pc = true) /\
+  (forall o u p, s_heap s o = Live u -> In p (u_out u) ->
+      exists pc, port_cfg (xc_cfg xc) p = Some pc /\ pc_in pc = false) /\
+  (forall p o, s_puniv s p = Some o -> exists u, s_heap s o = Live u /\ listed u p) /\
+  (forall o1 o2 u1 u2 p, s_heap s o1 = Live u1 -> s_heap s o2 = Live u2 ->
+      listed u1 p -> listed u2 p -> o1 = o2) /\
+  (forall o u, s_heap s o = Live u -> NoDup (u_in u) /\ NoDup (u_out u)) /\
+  (forall p q pcp pcq dc o, p <> q -> port_cfg (xc_cfg xc) p = Some pcp -> port_cfg (xc_cfg xc) q = Some pcq ->
+      pc_dev pcp = pc_dev pcq -> dev_cfg (xc_cfg xc) (pc_dev pcp) = Some dc ->
+      s_puniv s p = Some o -> s_puniv s q = Some o ->
+      (dc_loop dc = false -> pc_in pcp = pc_in pcq) /\ (dc_multi dc = false -> pc_in pcp <> pc_in pcq)) /\
+  (forall p, s_pprio s p <= 200) /\
+  (forall n o, sfind n (s_store s) = Some o <-> exists u, s_heap s o = Live u /\ u_num u = n) /\
+  (forall o u, s_heap s o = Live u -> u_active u = false -> In o (s_cand s)) /\
+  (forall o, In o (s_cand s) -> exists u, s_heap s o = Live u) /\
+  (forall p, s_pdead s p = true -> s_puniv s p = None) /\
+  (forall p, s_pdead s p = false -> (x_broker (y_x y) p = true <-> s_puniv s p <> None)).
+Proof. exact c03y_inv_full_l. Qed.
+Print Assumptions c03y_inv_full.
+
+(* A source client with a clear stale flag stays a source client of its (live, uncollected) universe
+   through ANY further history that contains at most one housekeeping run and no explicit removal of
+   that client from that universe. *)
+Theorem c03y_referrer : forall (xc : xcfg) (ops ops2 : list yop) (y y2 : ystate) (o cl : N) (u : uni),
+  yrun xc (yinit xc) ops = Some y ->
+  s_heap (x_s (y_x y)) o = Live u -> In cl (u_src u) -> y_stale y o cl = false ->
+  yrun xc y ops2 = Some y2 -> no_removal (u_num u) cl ops2 -> (hk_count ops2 <= 1)%nat ->
+  exists u2, s_heap (x_s (y_x y2)) o = Live u2 /\ u_num u2 = u_num u /\ In cl (u_src u2).
+Proof. exact c03y_referrer_l. Qed.
+Print Assumptions c03y_referrer.
+
+(* "A universe exists for as long as any ... client refers to it": a client that sent a frame for an
+   existing universe since the last-but-one housekeeping run (and was not explicitly removed) is still a
+   source client of that universe, which is still in the store and live -- whatever else happened. *)
+Theorem c03y_frame_referrer : forall (xc : xcfg) (ops ops2 : list yop) (y y2 : ystate) (n cl o : N),
+  yrun xc (yinit xc) ops = Some y -> sfind n (s_store (x_s (y_x y))) = Some o ->
+  yrun xc y (YFrame n cl :: ops2) = Some y2 -> no_removal n cl ops2 -> (hk_count ops2 <= 1)%nat ->
+  sfind n (s_store (x_s (y_x y2))) = Some o /\
+  exists u2, s_heap (x_s (y_x y2)) o = Live u2 /\ u_num u2 = n /\ In cl (u_src u2).
+Proof. exact c03y_frame_referrer_l. Qed.
+Print Assumptions c03y_frame_referrer.
+
+(* Device::Stop (DeleteAllPorts) in any reachable state, whether or not the device was unregistered
+   first and whatever its ports' hooks would answer (GenericDeletePort does not ask them): every port of
+   the device is deleted, unpatched and listed by no universe; ports of other devices keep their
+   patching; every universe left unused is queued for collection; the broker is not told. *)
+Theorem c03y_stop_clean : forall (xc : xcfg) (ops : list yop) (y : ystate) (d : N) (dc : dcfg),
+  yrun xc (yinit xc) ops = Some y -> dev_cfg (xc_cfg xc) d = Some dc ->
+  exists y', ystep xc y (YX (XBase (Stop d))) = YOk y' RUnit /\
+    (forall q pc, port_cfg (xc_cfg xc) q = Some pc -> pc_dev pc = d ->
+       s_pdead (x_s (y_x y')) q = true /\ s_puniv (x_s (y_x y')) q = None /\
+       forall o u, s_heap (x_s (y_x y')) o = Live u -> ~ listed u q) /\
+    (forall q pc, port_cfg (xc_cfg xc) q = Some pc -> pc_dev pc <> d ->
+       s_pdead (x_s (y_x y')) q = s_pdead (x_s (y_x y)) q /\
+       (s_pdead (x_s (y_x y)) q = false -> s_puniv (x_s (y_x y')) q = s_puniv (x_s (y_x y)) q)) /\
+    (forall o u, s_heap (x_s (y_x y')) o = Live u -> u_active u = false -> In o (s_cand (x_s (y_x y')))) /\
+    x_broker (y_x y') = x_broker (y_x y).
+Proof. exact c03y_stop_clean_l. Qed.
+Print Assumptions c03y_stop_clean.
+
+(* "... and is collected, with its settings saved, once nothing does": a collection (GC, or the GC half
+   of a housekeeping run) in any reachable state saves the settings of exactly the universes nothing
+   refers to, each once, frees exactly those, and keeps every other universe. *)
+Theorem c03y_gc : forall (xc : xcfg) (ops : list yop) (y : ystate) (o : yop),
+  yrun xc (yinit xc) ops = Some y -> (o = YX (XBase GC) \/ o = YHousekeeping) ->
+  exists y' l, ystep xc y o = YOk y' (RSaved l) /\
+    (forall n, In n l <-> exists a u, s_heap (x_s (y_x y)) a = Live u /\ u_active u = false /\ u_num u = n) /\
+    NoDup l /\
+    (forall a u, s_heap (x_s (y_x y)) a = Live u -> u_active u = false -> s_heap (x_s (y_x y')) a = Freed) /\
+    (forall a u, s_heap (x_s (y_x y)) a = Live u -> u_active u = true ->
+       exists u', s_heap (x_s (y_x y')) a = Live u' /\ u_num u' = u_num u).
+Proof. exact c03y_gc_l. Qed.
+Print Assumptions c03y_gc.
+
+(* the hypotheses of c03y_referrer / c03y_frame_referrer are met by a non-trivial history: patches,
+   a vetoed un-patch, a device registration, a GC and one housekeeping run after the frame *)
+Example ex_referrer :
+  let pre := [YX (XBase (Patch 0 5)); YX (XRegister 0)] in
+  let post := [YX (XBase (Patch 1 2)); YX (XBase (Unpatch 0)); YX (XBase GC); YHousekeeping;
+               YPortSetPrio 0 201; YX (XBase (Stop 0)); YX (XBase GC)] in
+  match yrun ex_xcfg (yinit ex_xcfg) pre with
+  | Some y =>
+    sfind 5 (s_store (x_s (y_x y))) = Some 0 /\ no_removal 5 7 post /\ (hk_count post <= 1)%nat /\
+    match yrun ex_xcfg y (YFrame 5 7 :: post) with
+    | Some y2 => map fst (s_store (x_s (y_x y2))) = [5] /\ s_pdead (x_s (y_x y2)) 0 = true
+    | None => False
+    end
+  | None => False
+  end.
+Proof.
+  vm_compute. split; [reflexivity|]. split; [|split; [repeat constructor | split; reflexivity]].
+  intros op Hin. repeat (destruct Hin as [<-|Hin]; [discriminate|]). destruct Hin.
+Qed.
